@@ -47,6 +47,17 @@ RULE = ("case = (mode, template built from segments [data | {{ name }} | for-loo
         "at the top level and inside if / for / with / block bodies and an if inside a for, "
         "optionally with text around: next to an empty output node the value is not the only node "
         "(text rule), with only silent statements around it is (identity). "
+        "Warning texts: output text built around ONE quoted string literal (quotes ' \" ''', prefixes "
+        "none/b/r/u) whose contents hold backslash sequences - unrecognised escapes (\\d \\s \\w \\. \\/ "
+        "...), recognised escapes, escaped quotes, raw Windows paths, regular expressions, \\u / \\U / "
+        "\\N{} / \\x escapes (valid and truncated), octal escapes (incl. > 0o377), trailing backslashes "
+        "- bare or inside a list / dict value / dict key / tuple / set / nested containers / adjacent "
+        "literals, plus 18 whole texts with a number directly followed by a keyword, `is` with a "
+        "literal or a call of a literal; routes [one string node | text cut into data/variable pieces | "
+        "structure as template data with the string CONTENTS as a variable | for-loop join of quoted "
+        "items] x the four modes: the text rule with ast.literal_eval's verdict, Python's parser "
+        "warnings (SyntaxWarning for unrecognised escapes ...) ignored - a warning is not a failure "
+        "to parse; whether Python warns on the text is recorded per case. "
         "Histories: one literal text holding >=1 list/dict/set (nested up to 3 levels, also inside a "
         "tuple) rendered 5-8 times through 2-3 templates [text cut into data/variable pieces | one "
         "string node | for-loop join | {{ super() }} of a block producing it | set a = self.w() of a "
@@ -63,11 +74,14 @@ RULE = ("case = (mode, template built from segments [data | {{ name }} | for-loo
 LEVEL_TEXT = ("held (modulo listed known findings) on K generated (template, data, mode) executions "
               "(segment templates, computed single nodes from custom filters/globals, block/extends/"
               "super()/self.x() template sets, render-mutate-render histories of one text across "
-              "templates, modes and environments) + a 45-row table of constant expressions against the documented three-"
+              "templates, modes and environments, literal texts with backslash sequences / parser warnings) + a 45-row table of constant expressions against the documented three-"
               "sentence model; values cover ints/floats/bools/None/containers/custom objects/"
               "literal-looking strings; not all templates")
 ASSUMPTIONS = [
     "ast.literal_eval (named by the documentation) is the specification of 'parses as a literal'",
+    "a text at which Python's parser only WARNS (unrecognised backslash escape in a string literal, "
+    "number directly followed by a keyword) parses: its value is what ast.literal_eval returns with the "
+    "warnings ignored, whatever warning filters the application has installed",
     "text with leading space/tab is accepted as either the text or its literal value (docs silent)",
     "templates never end in a newline and contain no \\r (newline normalisation is C12's subject)",
     "the value of {{ super() }} / {{ self.name() }} in a native environment is the documented native "
@@ -87,6 +101,8 @@ ASSUMPTIONS = [
     "templates get only strings/ints (and a list of strings) as data, so nothing handed in can be "
     "legitimately shared",
 ]
+WARN_CLASSES = ["escaped-quote", "number-keyword-adjacency", "octal-escape", "recognised-escape",
+                "regex", "trailing-backslash", "unicode-escape", "unrecognised-escape", "windows-path"]
 NSHARDS = {"quick": 16, "thorough": 16}
 BUDGET_S = {"quick": 20, "thorough": 300}
 FLOORS = {
@@ -123,7 +139,15 @@ FLOORS = {
                            "empty_only_silent_statements_around_single_value": 200,
                            "empty_scope:top": 700, "empty_scope:if": 230, "empty_scope:loop": 230,
                            "empty_scope:if-in-loop": 230, "empty_scope:with": 230,
-                           "empty_scope:block": 230}},
+                           "empty_scope:block": 230,
+                           # warning texts: count-bounded (70 cases per shard x 4 modes = 4480)
+                           "warn_text_cases": 2000, "warn_text_with_backslash": 1500,
+                           "warn_text_python_warns_while_parsing": 500,
+                           "warn_text_python_warns_and_text_is_a_literal": 350,
+                           "warn_text_route:cut": 500, "warn_text_route:loop-join": 200,
+                           "warn_text_route:quoted-variable": 400,
+                           "warn_text_route:string-node": 300,
+                           **{"warn_text:" + c: 100 for c in WARN_CLASSES}}},
     "thorough": {"evaluations": 350000, "distinct": 65000,
                  # time-boxed main loop: at load ~9x (load average 145 on 16 cores) a run gave
                  # identity_checks 78.9k / literal_results 86.6k / text_results 103.8k /
@@ -168,7 +192,15 @@ FLOORS = {
                               "empty_only_silent_statements_around_single_value": 650,
                               "empty_scope:top": 2400, "empty_scope:if": 800,
                               "empty_scope:loop": 800, "empty_scope:if-in-loop": 800,
-                              "empty_scope:with": 800, "empty_scope:block": 800}},
+                              "empty_scope:with": 800, "empty_scope:block": 800,
+                              # warning texts: 4000 cases per shard, time-boxed to 7% of the budget
+                              "warn_text_cases": 15000, "warn_text_with_backslash": 12000,
+                              "warn_text_python_warns_while_parsing": 5000,
+                              "warn_text_python_warns_and_text_is_a_literal": 3500,
+                              "warn_text_route:cut": 3000, "warn_text_route:loop-join": 1500,
+                              "warn_text_route:quoted-variable": 2500,
+                              "warn_text_route:string-node": 2000,
+                              **{"warn_text:" + c: 1000 for c in WARN_CLASSES}}},
 }
 
 MODES = ["sync.render", "async.render_async", "async.render", "sandbox.render"]
